@@ -43,7 +43,7 @@ def entry_bodies(P):
             if tr in ("Reader",) and "PrintlnWriter" in (b.impl_self_ty or ""):
                 continue
             out.append(b)
-        elif b.path.endswith("BitVec::from_vec_with_trailing_bit_len") or b.path.endswith("Scope::read_from_field"):
+        elif b.path.endswith("Scope::read_from_field"):
             out.append(b)
         elif (b.impl_self_ty or "").split("<")[0].split("::")[-1] in ("UperReader", "ProtobufReader", "BasicReader") \
                 and not b.impl_trait:
